@@ -109,7 +109,7 @@ def calltime_plan(tier):
     if tier == "thorough":
         return [("wide", "le2", 16), ("small", "all", 16),
                 ("small", "thr:4", 4), ("small", "thrmom:4", 8),
-                ("widebytes", "loc1", 8), ("bytes", "loc2:all", 32), ("bytes", "locthr:3", 64), ("bytes", "locmom:2", 16)]
+                ("widebytes", "loc1", 8), ("bytes", "loc2:all", 32), ("small", "locthr:3", 32), ("bytes", "locmom:2", 16)]
     return [("small", "le2", 2),
             ("small", "thr:3", 1), ("small", "thrmom:3", 3),
             ("bytes", "loc1", 1), ("bytes", "loc2:one", 4), ("small", "locthr:2", 8), ("bytes", "locmom:1", 2)]
@@ -136,7 +136,6 @@ def schedules_selfcheck(ctx, binary, env, tier):
             if v in seen and not (lst in ("le2", "all") and seen[v] in ("le2", "all")):      # thorough runs the 68 le2 masks twice on purpose: with the wide and with the small input set
                 raise vlib.HarnessError("C13 call-time plan: the schedule %s occurs in the lists %s and %s" % (v, seen[v], lst))
             seen[v] = lst
-    ctx.stats["harness_runs"] = ctx.stats.get("harness_runs", 0) - len(per_list)      # listing is not a harness run that executed cases
     for lst, n in per_list.items():
         ctx.smax("calltime_schedules[%s]" % lst, n)
     ctx.note("call-time / ambient-state plan: %s process descriptions, pairwise distinct (%s)" % (sum(per_list.values()), ", ".join("%s: %d" % kv for kv in per_list.items())))
@@ -386,6 +385,16 @@ def run(ctx):
         "registered by the first initialiser (after all static destructors). A process is a SUBSET of those moments (the library is untouched at the others, so each moment is met as the first call "
         "of the process and after earlier calls): %s; at every selected moment the whole input set runs (%s). "
         "A case there is (subset, moment, operation, input). "
+        "AMBIENT PROCESS STATE (same harness; a process is in general a SCHEDULE of steps (call time, thread, locale action), a subset of moments being the special case 'main thread, locale untouched'; "
+        "the steps run strictly one after the other - handed over and awaited - so the part is deterministic): "
+        "CALLING THREAD - threads M (main), A, B (persistent workers, created at their first step and kept alive, so thread_local state survives between steps), F (a fresh thread per step, joined after it): "
+        "%s. "
+        "LC_CTYPE LOCALE - %d locales: C, POSIX, C.utf8 and 11 eight-bit locales compiled offline with localedef from definitions written by the check (ISO-8859-1, KOI8-R and ISO-8859-9/Turkish-case layouts, and eight "
+        "uniform ones in which EVERY byte 80..FF is upper / lower / alpha / digit / space / punct / cntrl / xdigit), installed in 4 ways (setlocale(LC_CTYPE), setlocale(LC_ALL), std::locale::global, uselocale for the calling thread only): "
+        "%s. "
+        "The locale steps use the input set 'bytes' = the small set + the POSITION families: decode <k valid characters> b [YmFy] for EVERY byte value b, k in 0..5 and 16..19, and encode <p bytes of foo> b <q bytes of bar> "
+        "for every byte value b, p, q in 0..2 (10636 cases%s). Every step records a fingerprint of the <cctype> tables (isupper..isxdigit, toupper, tolower of all 256 values) its thread saw; a locale that was "
+        "not installed exactly as compiled is a harness error, and reports name the tables the calling thread really saw. No schedule occurs in two lists (verified in every run); a case is (schedule, step, operation, input). "
         "The families are disjoint by length/content, so every case is distinct by construction; index = the string as a number in base |alphabet| (sweep: the length). "
         "distinct_nontrivial counts, as measured by the harness, the encode cases whose input contains a NUL or a byte >= 0x80 plus the decode cases whose input is NOT the canonical "
         "RFC 4648 encoding of any byte string (dirty, truncated, wrongly padded or non-zero trailing bits); the dec[...] / enc[...] counters break the cases down by "
@@ -396,7 +405,18 @@ def run(ctx):
            "all 2048 subsets with the small input set and every subset of at most two moments plus the full set (68) with the wide input set" if t else "every subset of at most two moments plus the full set (68 processes)",
            "small set: encode all strings of length 0..1 over all 256 bytes, all of length 2..3 over {00,01,7F,80,FF,'A'}, 24 heap-resident strings of 16..27 bytes; decode all strings of length 0..1 over all 256 bytes, "
            "all of length 2..3 over the 13-byte alphabet, 16..19 valid characters + every tail of length 0..1 - 3212 cases" +
-           ("; wide set: additionally all strings of length 2 over all 256 bytes (encode and decode), encode length 4 over the 6 bytes, decode length 4 over the 13 bytes - 164141 cases" if t else "")))
+           ("; wide set: additionally all strings of length 2 over all 256 bytes (encode and decode), encode length 4 over the 6 bytes, decode length 4 over the 13 bytes - 164141 cases" if t else ""),
+           ("every history of 1..4 steps over {M,A,B,F} in main() (339), and every schedule of 1..2 steps over the 11 call times x {M,A,B,F} that is neither all-main-thread nor all-in-main() (1005), small input set" if t else
+            "every history of 1..3 steps over {M,A,B,F} in main() (83 processes; first thread to call vs later threads, main vs spawned, persistent vs fresh), and every schedule of 1..2 steps over the 11 call times x {M,A,F} "
+            "that is neither all-main-thread nor all-in-main() (540), small input set"),
+           len(locales.NAMES),
+           ("one step in main(): every locale x method (56 processes, input set 'widebytes' = wide + position families); two locale-installing steps in main(): every ordered pair of (locale, method) (3136); "
+            "thread x locale: every history of 1..3 steps over {M,A,F} in main() in which exactly one step installs a locale (any locale x method) and either runs the input set too or only installs it (11200, small input set); "
+            "call time x locale: at each of the other 10 call times one step installing each locale with setlocale(LC_ALL), and for every pair t1 < t2 'install only at t1, input set at t2' (910)" if t else
+            "one step in main(): every locale x method (56 processes); two locale-installing steps in main(): every ordered pair of locales with setlocale(LC_ALL) (196: a table cached under one locale and used under another); "
+            "thread x locale: every history of 1..2 steps over {M,A,F} in main() in which exactly one step installs a locale (any locale x method) and either runs the input set too or only installs it (2128, small input set); "
+            "call time x locale: at each of the other 10 call times one step installing each locale with setlocale(LC_ALL) (140)"),
+           "; 'widebytes' = the wide set + those, 171565 cases" if t else ""))
     ctx.assumptions += [
         "refs/C13_rfc4648.hpp (range arithmetic, 3-byte groups, bit-by-bit spec decode; no table, no accumulator) is the reference; it is cross-checked against python's base64 module on >100000 strings in every run",
         "strings longer than %s bytes are covered only by the stated structured families (6- and 13-byte alphabets up to length %s, alternating strings up to 64, rotations of 00..FF, 16..19-character valid prefixes), not exhaustively"
@@ -409,8 +429,15 @@ def run(ctx):
         "power-of-two windows for k >= %d run in a build of the same harness WITHOUT AddressSanitizer/UBSan (with _GLIBCXX_ASSERTIONS: std::string::operator[] and std::array::operator[] are range checked), "
         "so an out-of-bounds access that neither trips such an assertion nor changes the returned string would go unnoticed there" % (24 if t else 22),
         "call time: g++ 12 / GNU ld run static initialisers in link order and destructors/atexit handlers in reverse order of registration; the harness records the actual order of the 11 moments in every process and "
-        "refuses to judge (harness error) if it is not the assumed one. Dynamic libraries, threads started before main and other compilers' initialisation orders are not exercised; the call-time part runs in the "
+        "refuses to judge (harness error) if it is not the assumed one. Dynamic libraries and other compilers' initialisation orders are not exercised; the call-time / ambient-state part runs in the "
         "signed-char build only",
+        "calling thread: the steps of a process never overlap in time (each is handed to its thread and awaited), so data races between CONCURRENT calls are not examined - the statement is about values, and a "
+        "deterministic check cannot judge a race; what is examined is everything that depends on thread IDENTITY and call order (thread_local state, process-wide flags, first-caller initialisation). "
+        "At most %d steps and 3 distinct long-lived threads per process; worker threads are created at their first step, not in advance" % (4 if t else 3),
+        "LC_CTYPE locale: the 8-bit locales are compiled in every fresh build directory with glibc's localedef from sources the check writes (identity charmap, LC_CTYPE only) and selected through LOCPATH; "
+        "no multi-byte locale other than C.utf8 exists in the sandbox, and LC_CTYPE is the only category a byte-string codec could plausibly consult (LC_ALL / std::locale::global install the others with localedef's defaults). "
+        "g++ expands a direct isdigit() call inline, so the 'digit' class of a locale is invisible to optimised code; the harness reads the tables through function pointers and reports what the thread saw, including "
+        "glibc's mixed state (a thread that existed before another thread's setlocale keeps the old classification but sees the new case mapping)",
     ]
     if t:
         ctx.assumptions.append("the two 2^32 families (all 4-byte strings, encode and decode) run in a build of the same harness WITHOUT AddressSanitizer/UBSan (still with _GLIBCXX_ASSERTIONS); every other family except the largest power-of-two windows runs with them")
